@@ -48,9 +48,11 @@
 (*                                                                         *)
 (* Every "done" state prints the behaviour (inputs and the expected        *)
 (* pred_x, pred_p, innov_cvr, kalman_gain, est_x, est_p of every step as   *)
-(* rationals); harness/drivers/c06.py replays it into the real filter.     *)
-(* Arithmetic is checked (QMatrices.tla): a behaviour whose exact numbers  *)
-(* leave |num|,den < 10^9 goes to pc = "overflow" and is not emitted.      *)
+(* rational matrices [n |-> integers, d |-> common denominator]);          *)
+(* harness/drivers/c06.py replays it into the real filter.  Arithmetic is  *)
+(* checked (QMatrices.tla): a behaviour some number of which cannot be     *)
+(* kept below 10^9 in 32-bit integers goes to pc = "overflow", is counted  *)
+(* (EmitOverflow) and is not emitted - never computed wrongly.             *)
 (***************************************************************************)
 EXTENDS Integers, Sequences, FiniteSets, TLC, Json, IOUtils, QMatrices
 
